@@ -189,3 +189,29 @@ Proof.
     - apply perm_swap. }
   destruct Hr as [<-|[<-|[]]]; vm_compute; repeat split; eexists; eexists; eexists; reflexivity.
 Qed.
+
+(* Without the restriction to templates without custom verb the route-level claim is FALSE of the faithful model
+   and of the code (known finding K-C03-2, found by the thorough tier): the verb of {v}:x counts as a static
+   segment, so it ties with the literal "A:x" on the static count, and Less then prefers MORE parameters. *)
+Definition C03_curly_route_all_templates_statement : Prop :=
+  forall (O : oracles) (t : table) (req : request) (w : service) (r2 : route) (ps : list (str * str)),
+    t_router t = Curly ->
+    route_request O t req = RInvoke w r2 ps ->
+    forall r1, In r1 (s_routes w) ->
+      wf_route w r1 = true -> wf_route w r2 = true ->
+      admits O w r1 req = true ->
+      dominates (route_tpl w r1) (route_tpl w r2) = false.
+
+Theorem C03_refuted_custom_verb : ~ C03_curly_route_all_templates_statement.
+Proof.
+  intros H.
+  pose (rl := mk 2 "PATCH" "/A:x/"). pose (rv := mk 4 "PATCH" "/{v}:x").
+  pose (w := {| s_root := L "/{name}/{k}"; s_routes := [rl; rv] |}).
+  pose (rq := {| rq_method := L "PATCH"; rq_path := L "/ab/a.b/A:x"; rq_headers := []; rq_clen := 0 |}).
+  assert (E : exists ps, route_request O0 {| t_router := Curly; t_services := [w] |} rq = RInvoke w rv ps)
+    by (vm_compute; eexists; reflexivity).
+  destruct E as (ps & E).
+  specialize (H O0 {| t_router := Curly; t_services := [w] |} rq w rv ps eq_refl E rl (or_introl eq_refl) eq_refl eq_refl eq_refl).
+  vm_compute in H. discriminate H.
+Qed.
+Print Assumptions C03_refuted_custom_verb.
